@@ -2,6 +2,6 @@ SPECIFICATION Spec
 CONSTANTS
   Atomic = FALSE
   Readers = 1
-  CachedView = FALSE
-INVARIANT Dump
+  CachedView = TRUE
+INVARIANT InvPackSeesPool
 CHECK_DEADLOCK FALSE
